@@ -291,7 +291,14 @@ struct WorldH : World {
       for (auto &ag : agents) if (!ag.used && ag.argv.size() >= 5 && ag.argv[4] == local) { got = &ag; ag.used = true; break; }
       if (uncertain) {
         // a damaged database or a failing lookup may defer; it must never bounce, run as somebody else, or run as root
-        if (got) { if (!want.found || got->argv[2] != want.user || std::to_string(got->uid) != want.uid) { violate("C11.misdirected-under-fault", ctx + ": delivered as " + got->argv[2] + " uid " + std::to_string(got->uid) + " under a lookup fault, the table says " + (want.found ? want.user + " uid " + want.uid : std::string("nobody"))); return; } }
+        if (got) { if (!want.found || got->argv[2] != want.user || std::to_string(got->uid) != want.uid) { violate("C11.misdirected-under-fault", ctx + ": delivered as " + got->argv[2] + " uid " + std::to_string(got->uid) + " under a lookup fault, the table says " + (want.found ? want.user + " uid " + want.uid : std::string("nobody"))); return; }
+          // whatever failed on the way, an agent that does start has switched groups, gid and uid completely and in that order
+          unsigned long fuid = strtoul(want.uid.c_str(), 0, 10), fgid = strtoul(want.gid.c_str(), 0, 10);
+          if (got->uid == 0 || got->euid == 0) { violate("C11.delivery-as-root", ctx + ": qmail-local runs with uid " + std::to_string(got->uid) + "/" + std::to_string(got->euid) + " under a lookup fault"); return; }
+          if (got->uid != fuid || got->euid != fuid || got->gid != fgid) { violate("C11.identity", ctx + ": running as uid " + std::to_string(got->uid) + "/" + std::to_string(got->euid) + " gid " + std::to_string(got->gid) + " under a fault, expected " + want.uid + "/" + want.gid); return; }
+          if (got->groups.size() != 1 || got->groups[0] != fgid) { violate("C11.supplementary-groups", ctx + ": group list not reduced to {" + want.gid + "} (a failing identity switch must defer, not start the agent)"); return; }
+          std::string fseq = "G(1:" + std::to_string(fgid) + ")g(" + std::to_string(fgid) + ")u(" + std::to_string(fuid) + ")";
+          if (got->idseq != fseq) { violate("C11.id-switch-order", ctx + ": id switches " + got->idseq + ", expected " + fseq + " (groups, gid, then uid)"); return; } }
         else if (rep.empty() || rep[0] != 'Z') { violate("C11.lookup-fault-not-deferred", ctx + ": report \"" + printable(rep, 60) + "\" after a lookup fault, expected a temporary failure"); return; }
         continue;
       }
